@@ -91,6 +91,7 @@ def check(ctx):
     ctx.rule("R8", "a redirect target is opened the ordinary blocking way: the descriptor a stage inherits carries no status flags of xonsh's choosing (no custom opener, no O_NONBLOCK / O_NDELAY: on a FIFO or tty the stage would then read EAGAIN or write short)", floor=1)
     ctx.rule("R10", "a threaded alias stage gets the stream objects its resolved handles stand for, in every combination: a requested merge (stderr == subprocess.STDOUT) shares stdout's object even when stdout has no handle of its own, no request and no handle means the session's own stderr, an own handle means a writer on that handle (decision table of the selection in ProcProxyThread.run over the abstract handle values)", floor=6)
     ctx.rule("R11", "what the pipeline later reads from a threaded alias's `.stdout` / `.stderr` is a reader on the pipe or None, for both streams alike: the two attributes are normalised by the same chain of cases in ProcProxyThread.__init__ (a request flag left in `.stderr` - subprocess.STDOUT of `e>o` is the integer -2 - makes the command fail after it ran)", floor=2)
+    ctx.rule("R12", "a callable alias gets the stage's stream objects under every naming of its parameters: run_alias_by_params binds by name only when *every* parameter carries a canonical name and binds by position as soon as one does not - the switch is computed from all parameters, with no exemption by default value or kind (`def f(args, inp=None, out=None, err=None)` must receive the streams, not its Nones)", floor=1)
     ctx.rule("R5", "sibling stage-kind handlers agree on the merge flags (subprocess.STDOUT on stderr, the `2` flag on stdout)", floor=3)
 
     tk = ctx.repo.module(TK)
@@ -453,6 +454,7 @@ def check(ctx):
     _capture_marker(ctx)
     _alias_stream_selection(ctx)
     _reader_attr_siblings(ctx)
+    _alias_param_binding(ctx)
     _merge_spelling_boundary(ctx, tk, tf, redir_map)
     # ---- R8: how redirect targets are opened
     spm = ctx.repo.module(SP)
@@ -624,6 +626,45 @@ def _reader_attr_siblings(ctx):
     for t in tests_e:
         if t not in tests_o:
             ctx.ob("R11", st, f"the case `{t}` of the .stderr normalisation has its sibling in the .stdout normalisation", False, key=f"reader-attr|stdout-lacks|{t}", where=loc(found["stdout"][0]))
+
+
+
+def _alias_param_binding(ctx):
+    AL = "xonsh/aliases.py"
+    am = ctx.repo.module(AL)
+    fn = flat(ctx, am.func("run_alias_by_params"), 1)
+    st = f"{AL}:run_alias_by_params"
+    defs = df.all_defs(fn)
+    # the positional-mode switch: the `if` whose body rebinds the keyword mapping from a zip over the signature order
+    sw = [n for n in walk_local(fn) if isinstance(n, ast.If) and any(isinstance(b_, ast.Assign) and any(isinstance(c, ast.Call) and call_name(c) == "zip" for c in ast.walk(b_.value)) for b_ in n.body)]
+    if len(sw) != 1:
+        raise AnalysisError(f"{st}: the positional-mode switch was not found ({len(sw)})")
+    t = sw[0].test
+    # everything the test is computed from, locals resolved
+    exprs = [t]
+    seen_ = set()
+    todo = [x.id for x in ast.walk(t) if isinstance(x, ast.Name)]
+    while todo:
+        nm = todo.pop()
+        if nm in seen_:
+            continue
+        seen_.add(nm)
+        for d in defs.get(nm, []):
+            if d.value is not None and d.kind == "assign":
+                exprs.append(d.value)
+                todo += [x.id for x in ast.walk(d.value) if isinstance(x, ast.Name)]
+    # a filter on the parameters other than the name test exempts some of them
+    exempt = []
+    for e in exprs:
+        for g in [x for x in ast.walk(e) if isinstance(x, ast.comprehension)]:
+            for cond in g.ifs:
+                for a in ast.walk(cond):
+                    if isinstance(a, ast.Attribute) and a.attr in ("default", "kind", "annotation", "empty", "VAR_POSITIONAL", "VAR_KEYWORD", "KEYWORD_ONLY"):
+                        exempt.append(cond)
+        for a in ast.walk(e):
+            if isinstance(a, ast.Attribute) and a.attr in ("default", "kind") and not any(a in ast.walk(c_) for c_ in exempt):
+                exempt.append(a)
+    ctx.ob("R12", st, f"`if {short(t, 50)}:` (switch to positional binding) is computed from the names of all parameters - none is exempted by its default value or kind", not exempt, key="run_alias_by_params|positional-switch-exempts-parameters", where=loc(exempt[0]) if exempt else loc(sw[0]), detail=f"`{short(exempt[0], 60)}`" if exempt else None)
 
 
 def _merge_spelling_boundary(ctx, tk, tf, redir_map):
